@@ -3,8 +3,12 @@ package main
 // C15 — connection teardown wakes every caller and stops every loop, without panics.
 
 import (
+	"errors"
 	"fmt"
 	"io"
+	"net"
+	"os"
+	"syscall"
 	"time"
 
 	"github.com/M2MGateway/go-smpp/pdu"
@@ -49,7 +53,154 @@ func corrC15(r *Run) {
 		i := i
 		confirmed(r, func() { c15KeepAliveEOF(r, i, i%2 == 0) })
 	}
+	// the handshakes with EVERY command_status the library has a name for (zero included) and a few it has none for:
+	// what the peer puts into the status of its unbind_resp / enquire_link_resp must not decide whether the teardown happens
+	for i, st := range sweepStatuses() {
+		i, st := i, st
+		confirmed(r, func() { c15CloseStatus(r, i, st, 0) })
+		if i%6 == 0 {
+			confirmed(r, func() { c15CloseStatus(r, i, st, 1+(i/6)%2) })
+		}
+		confirmed(r, func() { c15KeepAliveStatus(r, i, st, i%9 == 4) })
+	}
 }
+
+// c15CloseStatus: Close's unbind answered by unbind_resp carrying status (kind 0), by a generic_nack (kind 1) or by a
+// response of another type (kind 2) with the unbind's sequence number: the handshake is complete — Close returns nil,
+// the transport is closed, Done() closes, Watch returns, blocked Submits are released.
+func c15CloseStatus(r *Run, idx int, status uint32, kind int) {
+	w := NewWorld(true)
+	defer w.Shutdown()
+	w.StartWatch()
+	var subs []*c15Sub
+	for g := 0; g < idx%3; g++ {
+		c := w.Go(g, CallSpec{Kind: "submit", Seq: int32(40 + g), P: &pdu.EnquireLink{}})[0]
+		w.Release(c)
+		subs = append(subs, &c15Sub{c: c})
+	}
+	cl := w.Go(100, CallSpec{Kind: "close", Seq: 77})[0]
+	var answer interface{}
+	what := "unbind_resp"
+	switch kind {
+	case 0:
+		answer = &pdu.UnbindResp{Header: pdu.Header{Sequence: 77, CommandStatus: pdu.CommandStatus(status)}}
+	case 1:
+		what = "generic_nack"
+		answer = &pdu.GenericNACK{Header: pdu.Header{Sequence: 77, CommandStatus: pdu.CommandStatus(status)}}
+	default:
+		what = "submit_sm_resp"
+		answer = &pdu.SubmitSMResp{Header: pdu.Header{Sequence: 77, CommandStatus: pdu.CommandStatus(status)}, MessageID: "m"}
+	}
+	f := frameOf(answer)
+	t0 := time.Now()
+	if idx%2 == 0 {
+		w.Release(cl)
+		t0 = time.Now()
+		w.Peer([][]byte{f}, nil)
+	} else {
+		w.Peer([][]byte{f}, nil)
+		t0 = time.Now()
+		w.Release(cl)
+	}
+	term := fmt.Sprintf("close-answered-by-%s/status=%#x", what, status)
+	input := "sched " + w.Script()
+	r.Count(input, true, "close-status/"+what)
+	if runStuck(r, w, input) {
+		return
+	}
+	c15Common(r, w, input, term, subs, t0, true)
+	if !w.Returned(cl) || cl.Err != nil {
+		r.Fail("close-result/"+term, "Close whose unbind was answered did not return nil", input, cl.Class(), "nil")
+	}
+	if !w.T.IsClosed() {
+		r.Fail("close-transport/"+term, "Close whose unbind was answered did not close the transport", input, "transport open", "transport closed")
+	}
+	r.Case(fmt.Sprintf("close-status#%d-%d %s %.160s", idx, kind, term, input), w.CaseExpr(connVariant))
+}
+
+// c15KeepAliveStatus: the enquire_link of the keep-alive loop answered with status (by enquire_link_resp, or by generic_nack):
+// it was answered — the loop goes on waiting for its next tick and does not close the connection; at the peer's EOF
+// Done() closes and the loop returns.
+func c15KeepAliveStatus(r *Run, idx int, status uint32, nack bool) {
+	w := NewWorld(true)
+	defer w.Shutdown()
+	w.StartWatch()
+	w.KeepAlive(time.Hour, time.Minute, 5, 6)
+	ping := w.KaCall("ping", 5)
+	w.sync()
+	var answer interface{} = &pdu.EnquireLinkResp{Header: pdu.Header{Sequence: 5, CommandStatus: pdu.CommandStatus(status)}}
+	what := "enquire_link_resp"
+	if nack {
+		what = "generic_nack"
+		answer = &pdu.GenericNACK{Header: pdu.Header{Sequence: 5, CommandStatus: pdu.CommandStatus(status)}}
+	}
+	if idx%2 == 0 {
+		w.Release(ping)
+		w.PeerPDU(answer)
+	} else {
+		w.PeerPDU(answer)
+		w.Release(ping)
+	}
+	term := fmt.Sprintf("keepalive-answered-by-%s/status=%#x", what, status)
+	nw, doneBefore := w.T.NWrites(), w.doneClosed()
+	t0 := time.Now()
+	w.PeerEnd(io.EOF)
+	input := "sched " + w.Script()
+	r.Count(input, true, "keepalive-status/"+what)
+	if runStuck(r, w, input) {
+		return
+	}
+	if nw != 1 || doneBefore {
+		r.Fail("keepalive-closed/"+term, "the keep-alive loop closed the connection although its enquire_link was answered", input,
+			fmt.Sprintf("%d transport writes, Done() closed=%v before the peer's EOF", nw, doneBefore), "1 write (the enquire_link), Done() open")
+	}
+	w.WaitUntil(promptly, func() bool { return w.KaReturned() })
+	if !w.KaReturned() {
+		r.Fail("keepalive-stuck/"+term, "EnquireLink did not return within 1 s of Done()", input, "EnquireLink still running", "EnquireLink returns")
+	}
+	c15Common(r, w, input, term, nil, t0, true)
+	if w.KaReturned() {
+		r.Case(fmt.Sprintf("keepalive-status#%d %s %.160s", idx, term, input), w.CaseExpr(connVariant))
+	}
+}
+
+// The error values a transport hands to a failing Read.  transient: errors.As finds a net.Error reporting Temporary() or
+// Timeout() in it — what a real net.Conn returns when the read deadline passes (os.ErrDeadlineExceeded inside a
+// *net.OpError) or a system call was interrupted.  Whatever the flavour: the transport reported an error, the connection ends.
+type c15Flavour struct {
+	name      string
+	err       error
+	transient bool
+}
+
+var c15ReadErrors = []c15Flavour{
+	{"plain", errScriptedReset, false},
+	{"unexpected-eof", io.ErrUnexpectedEOF, false},
+	{"econnreset", syscall.ECONNRESET, false},
+	{"op-error-econnreset", &net.OpError{Op: "read", Net: "tcp", Err: os.NewSyscallError("read", syscall.ECONNRESET)}, false},
+	{"wrapped", fmt.Errorf("read: %w", errScriptedReset), false},
+	{"temporary-only", tempErr{}, true},
+	{"eintr", syscall.EINTR, true},
+	{"eagain", syscall.EAGAIN, true},
+}
+
+var c15ReadTimeouts = []c15Flavour{
+	{"net-error-timeout", timeoutErr{}, true},
+	{"deadline-exceeded", os.ErrDeadlineExceeded, true},
+	{"op-error-deadline-exceeded", &net.OpError{Op: "read", Net: "tcp", Err: os.ErrDeadlineExceeded}, true},
+	{"wrapped-timeout", fmt.Errorf("read: %w", timeoutErr{}), true},
+}
+
+// c15End lets the transport report a flavour: transient ones mostly once (the next Read would wait again), others for good.
+func c15End(w *World, rng *Rng, f c15Flavour) {
+	if (f.transient && rng.Intn(8) != 0) || (!f.transient && rng.Intn(4) == 0) {
+		w.PeerEndOnce(f.err)
+	} else {
+		w.PeerEnd(f.err)
+	}
+}
+
+var _ = errors.Is
 
 type c15Sub struct {
 	c        *Call
@@ -116,6 +267,9 @@ func c15Scenario(r *Run, ts []pduType, idx int, term string) {
 	auto := inflight != 2 && term != "close-unsolicited-behind-unbind_resp"
 	w := NewWorld(auto)
 	defer w.Shutdown()
+	if idx%2 == 1 {
+		w.C.ReadTimeout = time.Hour // Watch arms a read deadline before every ReadPDU (the scripted transport keeps it; it never passes)
+	}
 	w.StartWatch()
 	seq := int32(1 + rng.Intn(1<<16))
 	fresh := func() int32 { seq += int32(1 + rng.Intn(3)); return seq }
@@ -170,24 +324,27 @@ func c15Scenario(r *Run, ts []pduType, idx int, term string) {
 	case "eof":
 		w.PeerEnd(io.EOF)
 	case "read-error":
-		w.PeerEnd(errScriptedReset)
+		fl := c15ReadErrors[(idx/len(c15Terms))%len(c15ReadErrors)]
+		term += "/" + fl.name
+		c15End(w, rng, fl)
 	case "read-timeout":
-		if rng.Bool() {
-			w.PeerEndOnce(timeoutErr{}) // a timeout is reported once; the transport itself is still there
-		} else {
-			w.PeerEnd(timeoutErr{})
-		}
+		fl := c15ReadTimeouts[(idx/len(c15Terms))%len(c15ReadTimeouts)]
+		term += "/" + fl.name
+		c15End(w, rng, fl)
 	case "read-error-mid-frame", "read-timeout-mid-frame":
 		// the transport fails while Watch is inside a frame: in its header, right behind it, in its body
 		var f []byte
-		for len(f) < 20 {
+		for tries := 0; len(f) < 20; tries++ {
+			genCap("c15 frame with a body", tries, "")
 			f = genUnsolicited(rng, ts, fresh())
 		}
 		cut := []int{16, 16, 17 + rng.Intn(len(f)-17), 17 + rng.Intn(len(f)-17), 1 + rng.Intn(15)}[rng.Intn(5)]
 		if term == "read-timeout-mid-frame" {
-			w.PeerTrunc(f, cut, timeoutErr{}, rng.Intn(3) != 0)
+			fl := c15ReadTimeouts[(idx/len(c15Terms))%len(c15ReadTimeouts)]
+			w.PeerTrunc(f, cut, fl.err, rng.Intn(3) != 0)
 		} else {
-			w.PeerTrunc(f, cut, errScriptedReset, rng.Bool())
+			fl := c15ReadErrors[(idx/len(c15Terms))%len(c15ReadErrors)]
+			w.PeerTrunc(f, cut, fl.err, fl.transient || rng.Bool())
 		}
 	case "close-write-fails":
 		// the unbind cannot be written: Close returns the error; it cancels the connection all the same
